@@ -1111,6 +1111,7 @@ pub fn generate(rng: &mut Prng, family: Family) -> Scenario {
     let pre_edges = rng.range(0, 2) as usize;
     let indexed: Vec<u8> = if family == Family::LpgCore { vec![0] } else { (0..2u8).filter(|_| rng.chance(1, 2)).collect() };
     let pre_triples: Vec<u8> = (0..8u8).filter(|_| rng.chance(1, 3)).collect();
+    let sc_pre_indexes = pre_edges.min(2);
     // conflicts need shared targets: most ops aim at slot 0 / triple 0
     for _ in 0..n_threads {
         let n = rng.range(1, max_ops) as usize;
@@ -1156,10 +1157,11 @@ pub fn generate(rng: &mut Prng, family: Family) -> Scenario {
                     3 | 4 => SOp::BufRelease,
                     _ => SOp::BufResize(*rng.pick(&[10usize, 50, 90])),
                 },
-                Family::Catalog => match rng.below(10) {
+                Family::Catalog => match rng.below(20) {
                     0..=3 => SOp::CatGetOrCreate(if rng.chance(2, 3) { 0 } else { rng.below(3) as u8 }, if rng.chance(2, 3) { 0 } else { rng.below(3) as u8 }),
-                    4..=6 => SOp::CatCreateIndex(rng.below(2) as u8, rng.below(2) as u8),
-                    7 | 8 => SOp::CatDropIndex(rng.below(4) as u8),
+                    4..=11 => SOp::CatCreateIndex(rng.below(2) as u8, rng.below(2) as u8),
+                    // mostly the ids that this very scenario hands out first
+                    12..=17 => SOp::CatDropIndex(if rng.chance(3, 4) { (sc_pre_indexes + rng.below(2) as usize) as u8 } else { rng.below(4) as u8 }),
                     _ => SOp::CatRead(rng.below(2) as u8),
                 },
                 Family::Cache => {
